@@ -23,10 +23,14 @@ import (
 	"path/filepath"
 	"reflect"
 	"regexp"
+	"runtime"
 	"sort"
 	"strconv"
 	"strings"
+	"sync"
+	"sync/atomic"
 	"syscall"
+	"time"
 
 	"github.com/gotd/td/session"
 	"github.com/gotd/td/tg"
@@ -34,8 +38,16 @@ import (
 	"verif/harness/hc"
 )
 
+func init() {
+	// The traced process does all its file-system calls on the main thread, so that strace's
+	// per-thread fault-injection counters (inject=…:when=N) address them deterministically.
+	if len(os.Args) > 1 && os.Args[1] == "c31-store" {
+		runtime.LockOSThread()
+	}
+}
+
 func main() {
-	if len(os.Args) == 4 && os.Args[1] == "c31-store" {
+	if len(os.Args) >= 4 && os.Args[1] == "c31-store" {
 		// The traced process: nothing but the real StoreSession.
 		data, err := os.ReadFile(os.Args[3])
 		if err != nil {
@@ -45,6 +57,35 @@ func main() {
 		st := &session.FileStorage{Path: os.Args[2]}
 		if err := st.StoreSession(context.Background(), data); err != nil {
 			fmt.Fprintln(os.Stderr, err)
+			os.Exit(4)
+		}
+		return
+	}
+	if len(os.Args) >= 4 && os.Args[1] == "c31-multi" {
+		// Several goroutines save different sessions through ONE FileStorage at the same time.
+		st := &session.FileStorage{Path: os.Args[2]}
+		var wg sync.WaitGroup
+		start := make(chan struct{})
+		var failed atomic.Bool
+		for _, df := range os.Args[3:] {
+			data, err := os.ReadFile(df)
+			if err != nil {
+				fmt.Fprintln(os.Stderr, err)
+				os.Exit(3)
+			}
+			wg.Add(1)
+			go func() {
+				defer wg.Done()
+				<-start
+				if err := st.StoreSession(context.Background(), data); err != nil {
+					fmt.Fprintln(os.Stderr, err)
+					failed.Store(true)
+				}
+			}()
+		}
+		close(start)
+		wg.Wait()
+		if failed.Load() {
 			os.Exit(4)
 		}
 		return
@@ -72,43 +113,146 @@ func isErrNotNil(e ast.Expr) bool {
 	return ok1 && ok2 && strings.HasSuffix(strings.ToLower(x.Name), "err") && y.Name == "nil"
 }
 
-func facts(f *hc.Facts) {
-	root := f.FuncDecl("session", "FileStorage.StoreSession")
-	if root == nil || root.Body == nil {
-		f.Missing("storeOps", "session.FileStorage.StoreSession not found")
-		return
+// operand classes: what a call's arguments / receiver ARE (independent of variable names)
+//
+//	path          the session file (f.Path / the parameter bound to it)
+//	data          the bytes to store (StoreSession's data parameter)
+//	dir-of-path   filepath.Dir(path)
+//	tmp-file      the *os.File returned by os.CreateTemp / os.OpenFile / os.Create
+//	tmp-name      tmp-file.Name()
+//	opened:<c>    the *os.File returned by os.Open(<c>)
+//	?<src>        anything else
+type factsWalker struct {
+	f       *hc.Facts
+	ops     []string
+	cleanup []string
+	locked  bool
+	unlock  bool
+}
+
+func (w *factsWalker) class(env map[string]string, e ast.Expr) string {
+	switch v := e.(type) {
+	case *ast.Ident:
+		if c, ok := env[v.Name]; ok {
+			return c
+		}
+	case *ast.SelectorExpr:
+		if w.f.Src(v) == "f.Path" {
+			return "path"
+		}
+	case *ast.CallExpr:
+		src := w.f.Src(v.Fun)
+		switch {
+		case src == "filepath.Dir" && len(v.Args) == 1 && w.class(env, v.Args[0]) == "path":
+			return "dir-of-path"
+		case src == "os.CreateTemp" || src == "os.OpenFile" || src == "os.Create":
+			return "tmp-file"
+		case src == "os.Open" && len(v.Args) == 1:
+			return "opened:" + w.class(env, v.Args[0])
+		}
+		if sel, ok := v.Fun.(*ast.SelectorExpr); ok && sel.Sel.Name == "Name" && len(v.Args) == 0 && w.class(env, sel.X) == "tmp-file" {
+			return "tmp-name"
+		}
 	}
-	var ops []string
-	var walk func(n ast.Node, depth int)
-	walk = func(n ast.Node, depth int) {
+	return "?" + strings.Join(strings.Fields(w.f.Src(e)), "")
+}
+
+// tag renders one file-system call with the classes of its operands.
+func (w *factsWalker) tag(env map[string]string, c *ast.CallExpr, sel *ast.SelectorExpr) string {
+	name := sel.Sel.Name
+	arg := func(i int) string {
+		if i < len(c.Args) {
+			return w.class(env, c.Args[i])
+		}
+		return "?"
+	}
+	switch name {
+	case "CreateTemp", "Open", "Remove", "Truncate":
+		return name + ":" + arg(0)
+	case "OpenFile", "Create":
+		return name + ":" + arg(0)
+	case "Rename", "Link", "Symlink":
+		return name + ":" + arg(0) + ">" + arg(1)
+	case "WriteFile":
+		return name + ":" + arg(0) + "<" + arg(1)
+	case "Write", "WriteString", "WriteAt", "ReadFrom":
+		return name + ":" + w.class(env, sel.X) + "<" + arg(0)
+	default: // Sync, Close
+		return name + ":" + w.class(env, sel.X)
+	}
+}
+
+func (w *factsWalker) fn(fd *ast.FuncDecl, env map[string]string, depth int) {
+	var walk func(n ast.Node)
+	bind := func(lhs []ast.Expr, rhs []ast.Expr) {
+		if len(rhs) == 1 && len(lhs) >= 1 {
+			if id, ok := lhs[0].(*ast.Ident); ok && id.Name != "_" {
+				env[id.Name] = w.class(env, rhs[0])
+			}
+		}
+	}
+	walk = func(n ast.Node) {
 		if n == nil || reflect.ValueOf(n).IsNil() {
 			return
 		}
 		ast.Inspect(n, func(x ast.Node) bool {
 			switch v := x.(type) {
-			case *ast.DeferStmt, *ast.FuncLit, *ast.GoStmt:
+			case *ast.GoStmt, *ast.FuncLit:
+				return false
+			case *ast.DeferStmt:
+				if lit, ok := v.Call.Fun.(*ast.FuncLit); ok { // deferred error cleanup
+					ast.Inspect(lit.Body, func(y ast.Node) bool {
+						if c, ok := y.(*ast.CallExpr); ok {
+							if sel, ok := c.Fun.(*ast.SelectorExpr); ok && fsCalls[sel.Sel.Name] {
+								w.cleanup = append(w.cleanup, w.tag(env, c, sel))
+							}
+						}
+						return true
+					})
+				} else if w.f.Src(v.Call.Fun) == "f.mux.Unlock" && depth == 0 {
+					w.unlock = true
+				}
+				return false
+			case *ast.AssignStmt:
+				for _, r := range v.Rhs {
+					walk(r)
+				}
+				bind(v.Lhs, v.Rhs)
 				return false
 			case *ast.IfStmt:
-				walk(v.Init, depth)
-				walk(v.Cond, depth)
+				walk(v.Init)
+				walk(v.Cond)
 				if !isErrNotNil(v.Cond) {
-					walk(v.Body, depth)
+					walk(v.Body)
 				}
-				walk(v.Else, depth)
+				walk(v.Else)
 				return false
 			case *ast.CallExpr:
 				for _, a := range v.Args {
-					walk(a, depth)
+					walk(a)
 				}
 				switch fn := v.Fun.(type) {
 				case *ast.SelectorExpr:
-					walk(fn.X, depth)
+					walk(fn.X)
+					if w.f.Src(fn) == "f.mux.Lock" && depth == 0 && len(w.ops) == 0 {
+						w.locked = true
+					}
 					if fsCalls[fn.Sel.Name] {
-						ops = append(ops, fn.Sel.Name)
+						w.ops = append(w.ops, w.tag(env, v, fn))
 					}
 				case *ast.Ident:
-					if d := f.FuncDecl("session", fn.Name); d != nil && d.Body != nil && depth < 3 {
-						walk(d.Body, depth+1)
+					if d := w.f.FuncDecl("session", fn.Name); d != nil && d.Body != nil && depth < 3 {
+						sub := map[string]string{}
+						i := 0
+						for _, p := range d.Type.Params.List {
+							for _, nm := range p.Names {
+								if i < len(v.Args) {
+									sub[nm.Name] = w.class(env, v.Args[i])
+								}
+								i++
+							}
+						}
+						w.fn(d, sub, depth+1)
 					}
 				}
 				return false
@@ -116,20 +260,43 @@ func facts(f *hc.Facts) {
 			return true
 		})
 	}
-	walk(root.Body, 0)
-	q := make([]string, len(ops))
-	for i, o := range ops {
-		q[i] = strconv.Quote(o)
+	walk(fd.Body)
+}
+
+func facts(f *hc.Facts) {
+	root := f.FuncDecl("session", "FileStorage.StoreSession")
+	if root == nil || root.Body == nil || root.Type.Params == nil || len(root.Type.Params.List) != 2 {
+		f.Missing("storeOps", "session.FileStorage.StoreSession(ctx, data) not found")
+		return
 	}
-	f.Raw("/-- file-system calls of session.FileStorage.StoreSession in execution order (success path) -/")
-	f.Raw("def storeOps : List String := [" + strings.Join(q, ", ") + "]")
+	w := &factsWalker{f: f}
+	env := map[string]string{}
+	for _, nm := range root.Type.Params.List[1].Names {
+		env[nm.Name] = "data"
+	}
+	w.fn(root, env, 0)
+	quote := func(xs []string) string {
+		q := make([]string, len(xs))
+		for i, o := range xs {
+			q[i] = strconv.Quote(o)
+		}
+		return "[" + strings.Join(q, ", ") + "]"
+	}
+	f.Raw("/-- file-system calls of session.FileStorage.StoreSession in execution order (success path), each with the classes of its operands -/")
+	f.Raw("def storeOps : List String := " + quote(w.ops))
+	f.Raw("/-- file-system calls of the deferred error cleanup of writeFileAtomic -/")
+	f.Raw("def storeCleanup : List String := " + quote(w.cleanup))
+	f.Bool("storeLocked", w.locked && w.unlock, "StoreSession holds f.mux for the whole call (Lock before the first file-system call, deferred Unlock)")
 }
 
 // ---------------------------------------------------------------------------------------------
 // trace
 
 type op struct {
-	kind  byte // o d w s c r t u x
+	pid   string // thread that issued it
+	sys   string // system call name
+	ord   int    // ordinal of this call among the calls of that name by that thread (1-based; strace inject when=)
+	kind  byte   // o d w s c r t u x
 	fd    int
 	name  string // base name (o, u), source (r)
 	name2 string // rename target
@@ -240,14 +407,26 @@ func argStr(a string) (string, bool, bool) {
 	return unescape(m[1]), m[2] != "", true
 }
 
-type parseStats struct{ failedCalls, ignored int }
+type parseStats struct {
+	failedCalls, ignored int
+	injected             string // the fault-injected call, if it touched the session directory: "<kind>" else ""
+	injectedAny          bool
+}
 
 // parseTrace turns strace output into the operations that touch `dir` (absolute, clean).
 func parseTrace(text, cwd, dir string) ([]op, parseStats, error) {
 	var st parseStats
 	pending := map[string]string{}
 	fds := map[int]bool{}
+	ords := map[string]int{}
 	var tr []op
+	// ops appended while handling a line are tagged with that line's thread / call / ordinal
+	tagged, prevPid, prevSys, prevOrd := 0, "", "", 0
+	flushTags := func() {
+		for ; tagged < len(tr); tagged++ {
+			tr[tagged].pid, tr[tagged].sys, tr[tagged].ord = prevPid, prevSys, prevOrd
+		}
+	}
 	inDir := func(p string) (string, bool) {
 		if !filepath.IsAbs(p) {
 			p = filepath.Join(cwd, p)
@@ -286,11 +465,35 @@ func parseTrace(text, cwd, dir string) ([]op, parseStats, error) {
 			continue
 		}
 		name, args := c[1], splitArgs(c[2])
+		flushTags()
+		ords[pid+" "+name]++
+		ord := ords[pid+" "+name]
+		prevPid, prevSys, prevOrd = pid, name, ord
 		ret, err := strconv.Atoi(c[3])
 		if err != nil || ret < 0 {
 			st.failedCalls++
+			if strings.Contains(c[4], "(INJECTED)") {
+				st.injectedAny = true
+				// did the injected failure hit a call on the session directory?
+				hit := false
+				for i, a := range args {
+					if p, _, ok := argStr(a); ok {
+						if _, in := inDir(p); in || isDir(p) {
+							hit = true
+						}
+					} else if i == 0 {
+						if v, err := strconv.Atoi(a); err == nil && fds[v] {
+							hit = true
+						}
+					}
+				}
+				if hit {
+					st.injected = name
+				}
+			}
 			continue
 		}
+
 		num := func(i int) int {
 			if i >= len(args) {
 				return -1
@@ -434,6 +637,7 @@ func parseTrace(text, cwd, dir string) ([]op, parseStats, error) {
 			}
 		}
 	}
+	flushTags()
 	return tr, st, nil
 }
 
@@ -672,20 +876,18 @@ type scenario struct {
 	relative string // "", "base" (cwd = dir), "sub" (cwd = parent of dir)
 	others   []ent
 	hasOld   bool
-	oldData  *session.Data // nil when raw
-	newData  *session.Data
-	old, new []byte
 	raw      bool
+	old      []byte
+	oldData  *session.Data   // nil when raw or absent
+	news     [][]byte        // contents to save (one per StoreSession call)
+	newDatas []*session.Data // nil entries when raw
 }
 
-func genScenario(r *hc.RNG, c *hc.Ctx, i int) scenario {
+func genScenario(r *hc.RNG, c *hc.Ctx, i int, saves int) scenario {
 	var s scenario
 	s.fileName = hc.Pick(r, "session.json", "session.json", "s", "tg session (1).json", "sessé.json", ".session")
 	s.relative = hc.Pick(r, "", "", "base", "sub")
-	s.hasOld = r.Chance(80)
-	if i == 0 {
-		s.hasOld = true
-	}
+	s.hasOld = r.Chance(80) || i == 0
 	if r.Chance(35) {
 		s.others = append(s.others, ent{"unrelated.txt", r.Bytes(r.Range(0, 40))})
 	}
@@ -698,20 +900,28 @@ func genScenario(r *hc.RNG, c *hc.Ctx, i int) scenario {
 	s.raw = r.Chance(15)
 	if s.raw {
 		s.old = r.Bytes(hc.Pick(r, 1, 7, 300))
-		s.new = r.Bytes(hc.Pick(r, 0, 1, 2, 64, 511, 600))
+		for k := 0; k < saves; k++ {
+			s.news = append(s.news, r.Bytes(hc.Pick(r, 0, 1, 2, 64, 511, 600)))
+			s.newDatas = append(s.newDatas, nil)
+		}
 		c.Count("data.raw-bytes")
 	} else {
 		big := c.Thorough() && r.Chance(15) || (!c.Thorough() && i == 3)
-		nOld, nNew := r.Range(0, 12), r.Range(0, 12)
-		if big {
-			nNew = hc.Pick(r, 60, 300, 900)
+		s.oldData = genSession(r, r.Range(0, 12))
+		s.old = marshal(s.oldData)
+		for k := 0; k < saves; k++ {
+			n := r.Range(0, 12)
+			if big && saves == 1 {
+				n = hc.Pick(r, 60, 300, 900)
+			}
+			d := genSession(r, n)
+			if r.Chance(10) && saves == 1 {
+				d = s.oldData // saving an unchanged session
+				c.Count("data.new=old")
+			}
+			s.newDatas = append(s.newDatas, d)
+			s.news = append(s.news, marshal(d))
 		}
-		s.oldData, s.newData = genSession(r, nOld), genSession(r, nNew)
-		if r.Chance(10) {
-			s.newData = s.oldData // saving an unchanged session
-			c.Count("data.new=old")
-		}
-		s.old, s.new = marshal(s.oldData), marshal(s.newData)
 		c.Count("data.json-session")
 	}
 	if !s.hasOld {
@@ -720,17 +930,83 @@ func genScenario(r *hc.RNG, c *hc.Ctx, i int) scenario {
 	return s
 }
 
-func straceStore(self, cwd, pathArg, dataFile, traceFile string) (string, error) {
-	cmd := exec.Command("strace", "-f", "-xx", "-s", "4194304", "-o", traceFile,
-		"-e", "trace=openat,open,creat,write,pwrite64,writev,fsync,fdatasync,rename,renameat,renameat2,close,ftruncate,truncate,unlink,unlinkat,link,linkat,symlink,symlinkat",
-		self, "c31-store", pathArg, dataFile)
-	cmd.Dir = cwd
-	out, err := cmd.CombinedOutput()
-	if err != nil {
-		return "", fmt.Errorf("strace/store failed: %v: %s", err, out)
+// layout creates the session directory of a scenario and the data files.
+type layout struct {
+	work, dir, cwd, pathArg string
+	ents                    []ent
+	keep                    map[string]bool
+	dataFiles               []string
+}
+
+func (sc scenario) setup(work string) (*layout, error) {
+	l := &layout{work: work, dir: filepath.Join(work, "sessdir"), keep: map[string]bool{sc.fileName: true}}
+	if err := os.MkdirAll(l.dir, 0o700); err != nil {
+		return nil, err
 	}
-	b, err := os.ReadFile(traceFile)
-	return string(b), err
+	l.ents = append([]ent{}, sc.others...)
+	if sc.hasOld {
+		l.ents = append(l.ents, ent{sc.fileName, sc.old})
+	}
+	sort.Slice(l.ents, func(i, j int) bool { return l.ents[i].name < l.ents[j].name })
+	for _, e := range l.ents {
+		l.keep[e.name] = true
+		if err := os.WriteFile(filepath.Join(l.dir, e.name), e.data, 0o600); err != nil {
+			return nil, err
+		}
+	}
+	for k, d := range sc.news {
+		p := filepath.Join(work, fmt.Sprintf("new%d.bin", k))
+		if err := os.WriteFile(p, d, 0o600); err != nil {
+			return nil, err
+		}
+		l.dataFiles = append(l.dataFiles, p)
+	}
+	l.cwd, l.pathArg = work, filepath.Join(l.dir, sc.fileName)
+	switch sc.relative {
+	case "base":
+		l.cwd, l.pathArg = l.dir, sc.fileName
+	case "sub":
+		l.cwd, l.pathArg = work, filepath.Join("sessdir", sc.fileName)
+	}
+	return l, nil
+}
+
+const straceSet = "trace=openat,open,creat,write,pwrite64,writev,fsync,fdatasync,rename,renameat,renameat2,close,ftruncate,truncate,unlink,unlinkat,link,linkat,symlink,symlinkat"
+
+// observe runs the child under strace and returns the trace text and the child's exit code.
+// Infrastructure failures (strace could not start / attach, no output, timeout) are retried: under heavy
+// machine load they must not turn into a verdict.
+func observe(self, cwd, traceFile string, inject string, childArgs ...string) (text string, rc int, err error) {
+	for attempt := 0; attempt < 4; attempt++ {
+		os.Remove(traceFile)
+		args := []string{"-f", "-xx", "-s", "4194304", "-o", traceFile, "-e", straceSet}
+		if inject != "" {
+			args = append(args, "-e", "inject="+inject)
+		}
+		args = append(args, self)
+		args = append(args, childArgs...)
+		ctx, cancel := context.WithTimeout(context.Background(), 180*time.Second)
+		cmd := exec.CommandContext(ctx, "strace", args...)
+		cmd.Dir = cwd
+		out, runErr := cmd.CombinedOutput()
+		timedOut := ctx.Err() != nil
+		cancel()
+		rc = 0
+		if ee, ok := runErr.(*exec.ExitError); ok {
+			rc = ee.ExitCode()
+		} else if runErr != nil {
+			rc = -1
+		}
+		b, rerr := os.ReadFile(traceFile)
+		infra := timedOut || rc == -1 || rerr != nil || len(b) == 0 || !strings.Contains(string(b), "exited with") ||
+			(rc != 0 && rc != 4)
+		if !infra {
+			return string(b), rc, nil
+		}
+		err = fmt.Errorf("strace run failed (attempt %d, rc=%d, timeout=%v): %v: %s", attempt+1, rc, timedOut, runErr, strings.TrimSpace(string(out)))
+		time.Sleep(time.Duration(200*(attempt+1)) * time.Millisecond)
+	}
+	return "", rc, err
 }
 
 func entsWire(ents []ent) string {
@@ -744,6 +1020,37 @@ func entsWire(ents []ent) string {
 	return strings.Join(w, ",")
 }
 
+func newsWire(news [][]byte) string {
+	w := make([]string, len(news))
+	for i, n := range news {
+		w[i] = hc.Hex(n)
+	}
+	return strings.Join(w, ",")
+}
+
+func newTag(k int) string {
+	if k == 0 {
+		return "new"
+	}
+	return fmt.Sprintf("new%d", k)
+}
+
+// classifyN names a content relative to the old one and the acceptable new ones (as Drv/C31.lean does).
+func classifyN(got []byte, exists bool, old []byte, hasOld bool, news [][]byte) string {
+	if exists == hasOld && (!exists || bytes.Equal(got, old)) {
+		return "old"
+	}
+	if !exists {
+		return "none"
+	}
+	for k, n := range news {
+		if bytes.Equal(got, n) {
+			return newTag(k)
+		}
+	}
+	return "other"
+}
+
 func stripPL(tok string) (cls, pl, listing string) {
 	p := strings.SplitN(tok, "/", 3)
 	if len(p) != 3 {
@@ -752,120 +1059,62 @@ func stripPL(tok string) (cls, pl, listing string) {
 	return p[0], p[1], p[2]
 }
 
-func run(c *hc.Ctx) error {
-	r := c.Rng
-	if _, err := exec.LookPath("strace"); err != nil {
-		return fmt.Errorf("strace not available: %w", err)
+func isGood(cls string) bool { return cls == "old" || strings.HasPrefix(cls, "new") }
+
+// loadVerdictN reads `path` through the real session.Loader and says which session it is.
+func loadVerdictN(path string, old *session.Data, news []*session.Data) (verdict, detail string) {
+	defer func() {
+		if p := recover(); p != nil {
+			verdict, detail = "panic", fmt.Sprint(p)
+		}
+	}()
+	got, err := (&session.Loader{Storage: &session.FileStorage{Path: path}}).Load(context.Background())
+	switch {
+	case err != nil && errors.Is(err, session.ErrNotFound):
+		if old == nil {
+			return "old", ""
+		}
+		return "lost", "Loader.Load: " + err.Error()
+	case err != nil:
+		return "unusable", "Loader.Load: " + err.Error()
+	case old != nil && reflect.DeepEqual(got, old):
+		return "old", ""
 	}
-	self, err := os.Executable()
-	if err != nil {
-		return err
-	}
-	base, err := os.MkdirTemp("", "c31-")
-	if err != nil {
-		return err
-	}
-	defer os.RemoveAll(base)
-	if b, err := filepath.EvalSymlinks(base); err == nil {
-		base = b
-	}
-	c.Res.Rule = "one case = one real StoreSession run under strace (old session present 80%, JSON sessions of 0..12 (some 60..900) DC options or raw bytes, " +
-		"absolute/relative paths, unrelated and stale temporary files in the directory); evaluations = crash points (every system-call boundary and " +
-		"every cut of every write; writes > 2000 bytes are cut at 0,1,2,page boundaries,len-1 and 24 random offsets); non-trivial = crash point strictly " +
-		"inside the save (after the first and before the last system call); distinct = distinct (trace, crash point)"
-	c.PartialNote("the crash model (which un-synced effects a power loss may drop) is an assumption; only the process-crash semantics is compared with the real kernel by replaying every trace prefix")
-	c.PartialNote("power-loss states are produced by the Lean model from the observed trace and then loaded with session.Loader; they cannot be produced by the kernel in a test")
-	nCases := c.N(10, 120)
-	var lastErr error
-	for i := 0; i < nCases; i++ {
-		sc := genScenario(r, c, i)
-		cr := r.Fork()
-		if err := runCase(c, cr, base, self, i, sc); err != nil {
-			lastErr = err
-			if !errors.Is(err, hc.ErrNoModel) {
-				return err
-			}
+	for k, n := range news {
+		if n != nil && reflect.DeepEqual(got, n) {
+			return newTag(k), ""
 		}
 	}
-	return lastErr
+	return "unusable", "Loader.Load returned a session that is neither the previous nor a saved one"
 }
 
-func runCase(c *hc.Ctx, r *hc.RNG, base, self string, idx int, sc scenario) error {
-	work := filepath.Join(base, fmt.Sprintf("case%d", idx))
-	dir := filepath.Join(work, "sessdir")
-	if err := os.MkdirAll(dir, 0o700); err != nil {
-		return err
-	}
-	defer os.RemoveAll(work)
-	ents := append([]ent{}, sc.others...)
-	if sc.hasOld {
-		ents = append(ents, ent{sc.fileName, sc.old})
-	}
-	sort.Slice(ents, func(i, j int) bool { return ents[i].name < ents[j].name })
-	keep := map[string]bool{sc.fileName: true}
-	for _, e := range ents {
-		keep[e.name] = true
-		if err := os.WriteFile(filepath.Join(dir, e.name), e.data, 0o600); err != nil {
-			return err
-		}
-	}
-	dataFile := filepath.Join(work, "new.bin")
-	if err := os.WriteFile(dataFile, sc.new, 0o600); err != nil {
-		return err
-	}
-	cwd, pathArg := work, filepath.Join(dir, sc.fileName)
-	switch sc.relative {
-	case "base":
-		cwd, pathArg = dir, sc.fileName
-	case "sub":
-		cwd, pathArg = work, filepath.Join("sessdir", sc.fileName)
-	}
-	c.Count("path." + map[string]string{"": "absolute", "base": "relative-bare", "sub": "relative-subdir"}[sc.relative])
-	if sc.hasOld {
-		c.Count("old.present")
-	} else {
-		c.Count("old.absent")
-	}
-	text, err := straceStore(self, cwd, pathArg, dataFile, filepath.Join(work, "trace.txt"))
-	if err != nil {
-		return err
-	}
-	rawTr, st, err := parseTrace(text, cwd, dir)
-	if err != nil {
-		return err
-	}
-	if len(rawTr) == 0 {
-		return fmt.Errorf("no system call touching the session directory was observed (strace output %d bytes)", len(text))
-	}
-	// the save itself must have worked
-	if got, err := os.ReadFile(filepath.Join(dir, sc.fileName)); err != nil || !bytes.Equal(got, sc.new) {
-		c.Fail("store-did-not-store", "store "+hexName(sc.fileName)+" "+hc.Hex(sc.new), fmt.Sprintf("after StoreSession the file does not hold the data (err=%v)", err))
-	}
-	tr, orig := canonNames(rawTr, keep)
-	for _, o := range orig {
-		if strings.HasPrefix(o, sc.fileName+".") && strings.HasSuffix(o, ".tmp") {
-			c.Count("tmpname.<file>.*.tmp")
-		} else {
-			c.Count("tmpname.other")
-		}
-	}
-	c.Count(fmt.Sprintf("trace.ops=%d", len(tr)))
-	if st.failedCalls > 0 {
-		c.Count("trace.has-failed-syscalls")
-	}
-	kinds := ""
-	for _, o := range tr {
-		kinds += string(o.kind)
-	}
-	c.Count("trace.shape=" + kinds)
+// analysis of one observed trace -----------------------------------------------------------------
 
-	total := 0
-	for _, o := range tr {
-		total += len(o.data)
-	}
-	exhaustive := total <= 2000
+type observed struct {
+	// filled by analyse: crash points and the model's power-loss classes at each of them
+	cps []crashPoint
+	pls []string
+
+	label      string // store | inject | multi
+	sc         scenario
+	l          *layout
+	tr         []op
+	exhaustive bool
+	wantFlags  string // what the model must say about the trace
+}
+
+func (o *observed) full() string {
+	return fmt.Sprintf("%s %s %s %s", hexName(o.sc.fileName), newsWire(o.sc.news), entsWire(o.l.ents), wireTrace(o.tr))
+}
+
+func (o *observed) head() string {
+	return fmt.Sprintf("%s %s %s", hexName(o.sc.fileName), newsWire(o.sc.news), entsWire(o.l.ents))
+}
+
+func analyse(c *hc.Ctx, r *hc.RNG, o *observed) error {
+	sc, tr := o.sc, o.tr
 	sample := func(n int) []int {
-		if exhaustive {
+		if o.exhaustive {
 			ks := make([]int, n)
 			for i := range ks {
 				ks[i] = i
@@ -888,19 +1137,18 @@ func runCase(c *hc.Ctx, r *hc.RNG, base, self string, idx int, sc scenario) erro
 		sort.Ints(ks)
 		return ks
 	}
-	if exhaustive {
-		c.Count("writes.cut-everywhere")
+	if o.exhaustive {
+		c.Count(o.label + ".writes.cut-everywhere")
 	} else {
-		c.Count("writes.cut-sampled")
+		c.Count(o.label + ".writes.cut-sampled")
 	}
 	cps := allCrashPoints(tr, sample)
-	head := fmt.Sprintf("%s %s %s", hexName(sc.fileName), hc.Hex(sc.new), entsWire(ents))
-	full := head + " " + wireTrace(tr)
+	full := o.full()
 
-	// ---- monitor 1 (model-free): replay every crash point for real, read it back
+	// ---- monitor 1 (model-free): rebuild every crash point for real, read it back
 	implTok := make([]string, len(cps))
 	// crash states are rebuilt on tmpfs when there is one (7x faster here; same process-crash semantics)
-	replayDir := filepath.Join(work, "replay")
+	replayDir := filepath.Join(o.l.work, "replay-"+o.label)
 	if d, err := os.MkdirTemp("/dev/shm", "c31-replay-"); err == nil {
 		replayDir = d
 		defer os.RemoveAll(d)
@@ -910,82 +1158,89 @@ func runCase(c *hc.Ctx, r *hc.RNG, base, self string, idx int, sc scenario) erro
 		inside := !(cp.ops == 0 && cp.part < 0) && cp.ops < len(tr)
 		sig := fmt.Sprintf("%s @%d+%d", full, cp.ops, cp.part)
 		c.Eval(sig, inside)
-		d, err := materialise(replayDir, ents, truncated(tr, cp))
+		d, err := materialise(replayDir, o.l.ents, truncated(tr, cp))
 		if err != nil {
 			os.RemoveAll(d)
 			return fmt.Errorf("replaying the observed trace failed at crash point %d+%d: %w", cp.ops, cp.part, err)
 		}
 		p := filepath.Join(d, sc.fileName)
 		got, rerr := os.ReadFile(p)
-		cls := classify(got, rerr == nil, sc.old, sc.hasOld, sc.new)
+		cls := classifyN(got, rerr == nil, sc.old, sc.hasOld, sc.news)
 		lst, err := listDir(d)
 		if err != nil {
 			return err
 		}
 		implTok[j] = cls + "/" + lst
-		c.Count("crash-state." + cls)
-		if cls != "old" && cls != "new" {
+		c.Count(o.label + ".crash-state." + cls)
+		if !isGood(cls) {
 			what := fmt.Sprintf("after %d system calls", cp.ops)
 			if cp.part >= 0 {
 				what += fmt.Sprintf(" and %d of %d bytes of the next write", cp.part, len(tr[cp.ops].data))
 			}
 			c.Fail("crash-state-neither-old-nor-new", sig,
-				fmt.Sprintf("process crash %s: %q holds %d bytes (previous session %d bytes, new session %d bytes)", what, sc.fileName, len(got), len(sc.old), len(sc.new)))
+				fmt.Sprintf("process crash %s: %q holds %d bytes (previous session %d bytes, new session %d bytes)", what, sc.fileName, len(got), len(sc.old), len(sc.news[0])))
 		}
 		if !sc.raw {
-			v, detail := loadVerdict(p, sc.oldData, sc.newData)
-			c.Count("loader." + v)
-			if v != "old" && v != "new" {
+			v, detail := loadVerdictN(p, sc.oldData, sc.newDatas)
+			c.Count(o.label + ".loader." + v)
+			if !isGood(v) {
 				c.Fail("crash-state-not-loadable", sig, fmt.Sprintf("process crash after %d system calls (+%d bytes): %s", cp.ops, cp.part, detail))
 			}
 		}
 		os.RemoveAll(d)
 	}
 
-	// ---- monitor 2 (syntactic, model-free): data of a renamed-in file is fsynced before the rename
-	dirty := map[int]bool{}   // fd has un-synced writes
+	// ---- monitor 2 (syntactic, model-free)
 	fdName := map[int]string{} // fd -> name it was opened as
 	dirtyName := map[string]bool{}
-	for _, o := range tr {
-		switch o.kind {
+	for _, x := range tr {
+		switch x.kind {
 		case 'o':
-			fdName[o.fd] = o.name
-			if o.name == sc.fileName && (o.flags&(syscall.O_TRUNC|syscall.O_WRONLY|syscall.O_RDWR) != 0) {
+			fdName[x.fd] = x.name
+			if x.name == sc.fileName && (x.flags&(syscall.O_TRUNC|syscall.O_WRONLY|syscall.O_RDWR) != 0) {
 				c.Fail("session-file-opened-for-writing", full, "the session file itself is opened for writing / truncation: its content changes in place")
 			}
 		case 'w', 't':
-			dirty[o.fd] = true
-			dirtyName[fdName[o.fd]] = true
+			dirtyName[fdName[x.fd]] = true
 		case 's':
-			dirty[o.fd] = false
-			dirtyName[fdName[o.fd]] = false
+			dirtyName[fdName[x.fd]] = false
+		case 'u':
+			if x.name == sc.fileName {
+				c.Fail("session-file-unlinked", full, "the session file is removed during the save: a crash before the rename leaves no session")
+			}
 		case 'r':
-			if o.name2 == sc.fileName && dirtyName[o.name] {
+			if x.name2 == sc.fileName && dirtyName[x.name] {
 				c.Fail("rename-before-fsync", full, "the temporary file is renamed over the session file while it has un-fsynced data: a power loss can keep the rename and lose the data")
 			}
+			if x.name == sc.fileName {
+				c.Fail("session-file-renamed-away", full, "the session file is renamed away during the save")
+			}
+			dirtyName[x.name2], dirtyName[x.name] = dirtyName[x.name], false
+		case 'x':
+			c.Fail("unmodelled-call-on-session-directory", full, "system call outside the model on the session directory: "+x.tag)
 		}
 	}
 
-	// ---- model: shape, crash states, power-loss outcomes, predicted trace
+	// ---- model: shape / discipline flags, crash states, power-loss outcomes
 	if c.Drv == nil {
 		return hc.ErrNoModel
 	}
 	var modelTok []string
 	flags := ""
-	if exhaustive {
+	if o.exhaustive {
 		out, err := c.Drv.Ask("crash " + full)
 		if err != nil {
 			return err
 		}
 		w := strings.Fields(out)
-		if len(w) < 4 {
+		if len(w) < 6 {
 			return fmt.Errorf("driver answered %q", out)
 		}
-		flags, modelTok = w[0]+" "+w[1]+" "+w[2], w[4:]
+		flags, modelTok = strings.Join(w[:5], " "), w[6:]
 	} else {
 		var lines []string
 		for _, cp := range cps {
-			lines = append(lines, "final "+head+" "+wireTrace(truncated(tr, cp)))
+			lines = append(lines, "final "+o.head()+" "+wireTrace(truncated(tr, cp)))
 		}
 		lines = append(lines, "shape "+full)
 		outs, err := c.Drv.Batch(lines)
@@ -1000,24 +1255,24 @@ func runCase(c *hc.Ctx, r *hc.RNG, base, self string, idx int, sc scenario) erro
 		return nil
 	}
 	// the observed trace must be inside the class the theorems cover
-	// (atomic + fresh: atomic_replace_safe*; durable: repeated_saves_safe needs the directory fsync to have succeeded)
-	if c.Compare("shape "+full, "atomic=1 fresh=1 durable=1", flags) {
+	if c.Compare("shape "+full, o.wantFlags, flags) {
 		c.Res.TracesValidated++
 	}
 	plShown := false
+	o.cps = cps
 	for j, cp := range cps {
 		cls, pl, lst := stripPL(modelTok[j])
+		o.pls = append(o.pls, pl)
 		if c.Compare(fmt.Sprintf("%s @%d+%d", full, cp.ops, cp.part), implTok[j], cls+"/"+lst) {
 			c.Res.TracesValidated++
 		}
-		c.Count("powerloss." + pl)
+		c.Count(o.label + ".powerloss." + pl)
 		for _, k := range strings.Split(pl, "+") {
-			if k == "old" || k == "new" {
+			if isGood(k) {
 				continue
 			}
-			// materialise the offending power-loss contents and load them
 			detail := "power loss: model outcome class " + k
-			if exhaustive && !plShown {
+			if o.exhaustive && !plShown {
 				plShown = true
 				if out, err := c.Drv.Ask(fmt.Sprintf("plreads %d %s", j, full)); err == nil {
 					for _, h := range strings.Fields(out) {
@@ -1025,18 +1280,18 @@ func runCase(c *hc.Ctx, r *hc.RNG, base, self string, idx int, sc scenario) erro
 							continue
 						}
 						b, _ := hc.UnHex(h)
-						if bytes.Equal(b, sc.new) || (sc.hasOld && bytes.Equal(b, sc.old)) {
+						if isGood(classifyN(b, true, sc.old, sc.hasOld, sc.news)) {
 							continue
 						}
 						p := filepath.Join(replayDir, "pl.json")
 						os.WriteFile(p, b, 0o600)
 						v, d := "", ""
 						if !sc.raw {
-							v, d = loadVerdict(p, sc.oldData, sc.newData)
+							v, d = loadVerdictN(p, sc.oldData, sc.newDatas)
 						}
 						os.Remove(p)
 						detail = fmt.Sprintf("power loss after %d system calls (+%d bytes) can leave %d bytes in %q (previous %d, new %d); Loader verdict %q %s",
-							cp.ops, cp.part, len(b), sc.fileName, len(sc.old), len(sc.new), v, d)
+							cp.ops, cp.part, len(b), sc.fileName, len(sc.old), len(sc.news[0]), v, d)
 						break
 					}
 				}
@@ -1045,33 +1300,526 @@ func runCase(c *hc.Ctx, r *hc.RNG, base, self string, idx int, sc scenario) erro
 			break
 		}
 	}
-	// the trace predicted from the regenerated call list
-	var chunks []string
-	fd, dfd, tmp := -1, 0, "vtmp1"
-	for _, o := range tr {
-		switch o.kind {
+	return nil
+}
+
+// first file fd / dir fd / temp name / chunks of a trace, for the predicted-trace requests
+func traceParams(tr []op, fileName string) (fd, dfd int, tmp string, chunks string) {
+	fd, dfd, tmp = -1, -1, "vtmp1"
+	var cs []string
+	for _, x := range tr {
+		switch x.kind {
 		case 'o':
 			if fd < 0 {
-				fd = o.fd
-				if o.name != sc.fileName {
-					tmp = o.name
+				fd = x.fd
+				if x.name != fileName {
+					tmp = x.name
 				}
 			}
 		case 'd':
-			dfd = o.fd
+			dfd = x.fd
 		case 'w':
-			chunks = append(chunks, hc.Hex(o.data))
+			cs = append(cs, hc.Hex(x.data))
 		}
 	}
-	if len(chunks) == 0 {
-		chunks = []string{"-"}
+	if dfd < 0 {
+		dfd = fd
 	}
-	pred, err := c.Drv.Ask(fmt.Sprintf("impl %d %d %s %s %s", fd, dfd, hexName(tmp), hexName(sc.fileName), strings.Join(chunks, ",")))
+	if len(cs) == 0 {
+		cs = []string{"-"}
+	}
+	return fd, dfd, tmp, strings.Join(cs, ",")
+}
+
+// ---------------------------------------------------------------------------------------------
+
+func run(c *hc.Ctx) error {
+	r := c.Rng
+	if _, err := exec.LookPath("strace"); err != nil {
+		return fmt.Errorf("strace not available: %w", err)
+	}
+	self, err := os.Executable()
 	if err != nil {
 		return err
 	}
-	if c.Compare("impl-trace "+full, wireTrace(tr), pred) {
+	base, err := os.MkdirTemp("", "c31-")
+	if err != nil {
+		return err
+	}
+	defer os.RemoveAll(base)
+	if b, err := filepath.EvalSymlinks(base); err == nil {
+		base = b
+	}
+	c.Res.Rule = "one case = one real StoreSession run under strace (old session present 80%, JSON sessions of 0..12 (some 60..900) DC options or raw bytes, " +
+		"absolute/relative paths, unrelated and stale temporary files in the directory), followed by runs of the same case with one system call made to fail " +
+		"(strace fault injection: ENOSPC/EIO/EACCES/EINTR/EXDEV at the temp-file open, write, fsync, close, rename, directory open/fsync/close), plus cases where " +
+		"2..3 goroutines save different sessions through one FileStorage at once; evaluations = crash points (every system-call boundary and " +
+		"every cut of every write; writes > 2000 bytes and the fault-injected / concurrent runs are cut at 0,1,2,page boundaries,len/2,len-2,len-1 and 24 random offsets); " +
+		"non-trivial = crash point strictly inside the save; distinct = distinct (trace, crash point)"
+	c.PartialNote("the crash model (which un-synced effects a power loss may drop) is an assumption; only the process-crash semantics is compared with the real kernel by replaying every trace prefix, and rename atomicity w.r.t. concurrent readers is observed directly")
+	c.PartialNote("power-loss states are produced by the Lean model from the observed trace and then loaded with session.Loader; they cannot be produced by the kernel in a test")
+	c.PartialNote("failing system calls are simulated by strace fault injection (the call is not executed); a failing close therefore leaves the descriptor open in the kernel, unlike a real EIO on close")
+	nCases := c.N(10, 120)
+	var lastErr error
+	note := func(err error) error {
+		if err == nil {
+			return nil
+		}
+		lastErr = err
+		if errors.Is(err, hc.ErrNoModel) {
+			return nil
+		}
+		return err
+	}
+	for i := 0; i < nCases; i++ {
+		sc := genScenario(r, c, i, 1)
+		if err := note(runStoreCase(c, r.Fork(), base, self, i, sc)); err != nil {
+			return err
+		}
+	}
+	for i := 0; i < c.N(3, 40); i++ {
+		sc := genScenario(r, c, 100+i, hc.Pick(r, 2, 2, 3))
+		if err := note(runMultiCase(c, r.Fork(), base, self, i, sc)); err != nil {
+			return err
+		}
+	}
+	if err := runReaders(c, r.Fork(), base); err != nil {
+		return err
+	}
+	if err := runUnlockedSavers(c, r.Fork(), base); err != nil {
+		return err
+	}
+	return lastErr
+}
+
+var injectErrnos = map[string][]string{
+	"openat": {"ENOSPC", "EACCES", "EMFILE"}, "write": {"ENOSPC", "EIO", "EINTR"}, "fsync": {"EIO", "ENOSPC"},
+	"close": {"EIO"}, "renameat": {"ENOSPC", "EXDEV", "EACCES"},
+}
+
+func runStoreCase(c *hc.Ctx, r *hc.RNG, base, self string, idx int, sc scenario) error {
+	work := filepath.Join(base, fmt.Sprintf("case%d", idx))
+	defer os.RemoveAll(work)
+	l, err := sc.setup(work)
+	if err != nil {
+		return err
+	}
+	c.Count("path." + map[string]string{"": "absolute", "base": "relative-bare", "sub": "relative-subdir"}[sc.relative])
+	if sc.hasOld {
+		c.Count("old.present")
+	} else {
+		c.Count("old.absent")
+	}
+	text, rc, err := observe(self, l.cwd, filepath.Join(work, "trace.txt"), "", "c31-store", l.pathArg, l.dataFiles[0])
+	if err != nil {
+		return err
+	}
+	rawTr, st, err := parseTrace(text, l.cwd, l.dir)
+	if err != nil {
+		return err
+	}
+	if len(rawTr) == 0 {
+		return fmt.Errorf("no system call touching the session directory was observed (strace output %d bytes)", len(text))
+	}
+	// the save itself must have worked
+	if got, err := os.ReadFile(filepath.Join(l.dir, sc.fileName)); rc != 0 || err != nil || !bytes.Equal(got, sc.news[0]) {
+		c.Fail("store-did-not-store", "store "+hexName(sc.fileName)+" "+hc.Hex(sc.news[0]), fmt.Sprintf("after StoreSession (exit %d) the file does not hold the data (err=%v)", rc, err))
+	}
+	tr, orig := canonNames(rawTr, l.keep)
+	for _, o := range orig {
+		if strings.HasPrefix(o, sc.fileName+".") && strings.HasSuffix(o, ".tmp") {
+			c.Count("tmpname.<file>.*.tmp")
+		} else {
+			c.Count("tmpname.other")
+		}
+	}
+	if st.failedCalls > 0 {
+		c.Count("trace.has-failed-syscalls")
+	}
+	kinds := ""
+	for _, o := range tr {
+		kinds += string(o.kind)
+	}
+	c.Count("store.trace.shape=" + kinds)
+	total := 0
+	for _, o := range tr {
+		total += len(o.data)
+	}
+	ob := &observed{label: "store", sc: sc, l: l, tr: tr, exhaustive: total <= 2000,
+		wantFlags: "atomic=1 fresh=1 durable=1 disciplined=1 pubs=new"}
+	if err := analyse(c, r, ob); err != nil {
+		return err
+	}
+	// the trace predicted from the regenerated call list
+	fd, dfd, tmp, chunks := traceParams(tr, sc.fileName)
+	pred, err := c.Drv.Ask(fmt.Sprintf("impl %d %d %s %s %s", fd, dfd, hexName(tmp), hexName(sc.fileName), chunks))
+	if err != nil {
+		return err
+	}
+	if c.Compare("impl-trace "+ob.full(), wireTrace(tr), pred) {
 		c.Res.TracesValidated++
 	}
+
+	// ---- the same save with one of its system calls failing
+	nInj := c.N(2, 4)
+	for _, k := range permOf(r, len(rawTr), nInj) {
+		target := rawTr[k]
+		errnos, ok := injectErrnos[target.sys]
+		if !ok || target.ord == 0 {
+			c.Count("inject.skipped-" + target.sys)
+			continue
+		}
+		errno := hc.Pick(r, errnos...)
+		if err := runInjected(c, r, base, self, fmt.Sprintf("%d-%d", idx, k), sc, k, target, errno, len(tr)); err != nil {
+			return err
+		}
+	}
+	return nil
+}
+
+// perm returns up to n distinct indices below m in PRNG order.
+func permOf(r *hc.RNG, m, n int) []int {
+	idx := make([]int, m)
+	for i := range idx {
+		idx[i] = i
+	}
+	for i := m - 1; i > 0; i-- {
+		j := r.Intn(i + 1)
+		idx[i], idx[j] = idx[j], idx[i]
+	}
+	if n < m {
+		idx = idx[:n]
+	}
+	return idx
+}
+
+func runInjected(c *hc.Ctx, r *hc.RNG, base, self, id string, sc scenario, k int, target op, errno string, nOps int) error {
+	work := filepath.Join(base, "inj"+id)
+	defer os.RemoveAll(work)
+	l, err := sc.setup(work)
+	if err != nil {
+		return err
+	}
+	inject := fmt.Sprintf("%s:error=%s:when=%d", target.sys, errno, target.ord)
+	text, rc, err := observe(self, l.cwd, filepath.Join(work, "trace.txt"), inject, "c31-store", l.pathArg, l.dataFiles[0])
+	if err != nil {
+		return err
+	}
+	rawTr, st, err := parseTrace(text, l.cwd, l.dir)
+	if err != nil {
+		return err
+	}
+	if st.injected == "" {
+		// the counter addressed some other call of the process (start-up differs between runs): not a case
+		c.Count("inject.missed")
+		return nil
+	}
+	label := fmt.Sprintf("inject.%c-%s", target.kind, errno)
+	c.Count(label + fmt.Sprintf(".exit=%d", rc))
+	tr, _ := canonNames(rawTr, l.keep)
+	in := fmt.Sprintf("inject %s at call %d of %s", inject, k, (&observed{sc: sc, l: l, tr: tr}).full())
+	// ---- monitor: what the directory looks like after the failed / retried save
+	got, rerr := os.ReadFile(filepath.Join(l.dir, sc.fileName))
+	names, _ := os.ReadDir(l.dir)
+	switch rc {
+	case 0:
+		if rerr != nil || !bytes.Equal(got, sc.news[0]) {
+			c.Fail("store-did-not-store", in, "StoreSession returned nil although a system call failed, but the file does not hold the new session")
+		}
+	default:
+		cls := classifyN(got, rerr == nil, sc.old, sc.hasOld, sc.news)
+		if cls != "old" {
+			c.Fail("failed-save-changed-session", in, fmt.Sprintf("StoreSession returned an error, afterwards %q is %s (%d bytes), not the previous session", sc.fileName, cls, len(got)))
+		}
+		if !sc.raw {
+			if v, d := loadVerdictN(filepath.Join(l.dir, sc.fileName), sc.oldData, sc.newDatas); v != "old" {
+				c.Fail("failed-save-changed-session", in, "after the failed save Loader.Load gives "+v+" "+d)
+			}
+		}
+		for _, e := range names {
+			if !l.keep[e.Name()] {
+				c.Fail("failed-save-left-temp-file", in, "after the failed save the directory still holds "+e.Name())
+			}
+		}
+	}
+	want := "atomic=0 fresh=1 durable=0 disciplined=1 pubs=-"
+	afterRename := false
+	for _, x := range tr {
+		if x.kind == 'r' {
+			afterRename = true
+		}
+	}
+	switch {
+	case rc == 0 && afterRename && len(tr) == nOps: // a retried call (EINTR): the complete trace
+		want = "atomic=1 fresh=1 durable=1 disciplined=1 pubs=new"
+	case rc == 0 && afterRename: // failure in the best-effort directory sync: durable iff the directory fsync itself happened
+		dirFd, synced := -1, false
+		for _, x := range tr {
+			switch {
+			case x.kind == 'd':
+				dirFd = x.fd
+			case x.kind == 's' && x.fd == dirFd && dirFd >= 0:
+				synced = true
+			case x.kind == 'c' && x.fd == dirFd:
+				dirFd = -1
+			}
+		}
+		want = "atomic=1 fresh=1 durable=0 disciplined=1 pubs=new"
+		if synced {
+			want = "atomic=1 fresh=1 durable=1 disciplined=1 pubs=new"
+		}
+	}
+	if len(tr) == 0 {
+		c.Count("inject.nothing-happened")
+		return nil
+	}
+	ob := &observed{label: "inject", sc: sc, l: l, tr: tr, exhaustive: false, wantFlags: want}
+	if err := analyse(c, r, ob); err != nil {
+		return err
+	}
+	// predicted trace of the failing save (call list + cleanup list, regenerated)
+	if !(rc == 0 && len(tr) == nOps) {
+		fd, dfd, tmp, chunks := traceParams(tr, sc.fileName)
+		if chunks == "-" || k <= 1 { // the data never reached a write: take the chunking of the request
+			chunks = hc.Hex(sc.news[0])
+		}
+		pred, err := c.Drv.Ask(fmt.Sprintf("abort %d %d %s %s %s %d", fd, dfd, hexName(tmp), hexName(sc.fileName), chunks, k))
+		if err != nil {
+			return err
+		}
+		if c.Compare("abort-trace "+in, wireTrace(tr), pred) {
+			c.Res.TracesValidated++
+		}
+	}
+	return nil
+}
+
+func runMultiCase(c *hc.Ctx, r *hc.RNG, base, self string, idx int, sc scenario) error {
+	work := filepath.Join(base, fmt.Sprintf("multi%d", idx))
+	defer os.RemoveAll(work)
+	l, err := sc.setup(work)
+	if err != nil {
+		return err
+	}
+	args := append([]string{"c31-multi", l.pathArg}, l.dataFiles...)
+	text, rc, err := observe(self, l.cwd, filepath.Join(work, "trace.txt"), "", args...)
+	if err != nil {
+		return err
+	}
+	rawTr, _, err := parseTrace(text, l.cwd, l.dir)
+	if err != nil {
+		return err
+	}
+	tr, _ := canonNames(rawTr, l.keep)
+	c.Count(fmt.Sprintf("multi.savers=%d", len(sc.news)))
+	ob := &observed{label: "multi", sc: sc, l: l, tr: tr, exhaustive: false}
+	full := ob.full()
+	got, rerr := os.ReadFile(filepath.Join(l.dir, sc.fileName))
+	final := classifyN(got, rerr == nil, sc.old, sc.hasOld, sc.news)
+	if rc != 0 || !strings.HasPrefix(final, "new") {
+		c.Fail("concurrent-saves-lost", full, fmt.Sprintf("after %d concurrent StoreSession calls (exit %d) the file is %s", len(sc.news), rc, final))
+	}
+	names, _ := os.ReadDir(l.dir)
+	for _, e := range names {
+		if !l.keep[e.Name()] {
+			c.Fail("concurrent-saves-left-temp-file", full, "the directory still holds "+e.Name())
+		}
+	}
+	// every content is published exactly once, in the order of the saves; the last one is the final file
+	if c.Drv == nil {
+		return hc.ErrNoModel
+	}
+	segs, err := c.Drv.Ask("segments " + full)
+	if err != nil {
+		return err
+	}
+	order := strings.Fields(segs)
+	seen := map[string]int{}
+	for _, s := range order {
+		seen[s]++
+	}
+	okSegs := len(order) == len(sc.news)
+	for k := range sc.news {
+		if seen[newTag(k)] != 1 {
+			okSegs = false
+		}
+	}
+	// (two savers may be given equal contents by the generator only with negligible probability)
+	if c.Compare("segments "+full, fmt.Sprintf("%d durable atomic replacements, one per content", len(sc.news)),
+		map[bool]string{true: fmt.Sprintf("%d durable atomic replacements, one per content", len(sc.news)), false: "segments: " + segs}[okSegs]) {
+		c.Res.TracesValidated++
+	}
+	if okSegs {
+		ob.wantFlags = "atomic=0 fresh=1 durable=0 disciplined=1 pubs=" + strings.Join(order, "+")
+		if c.Compare("final "+full, final, order[len(order)-1]) {
+			c.Res.TracesValidated++
+		}
+	} else {
+		ob.wantFlags = "disciplined=1"
+	}
+	if err := analyse(c, r, ob); err != nil {
+		return err
+	}
+	// ---- a save that has RETURNED must survive a power loss during the following saves: once save k is
+	// complete, no crash state may fall back to anything older than what save k wrote.
+	if okSegs && len(ob.pls) == len(ob.cps) {
+		var starts []int // index of the first call of each save
+		for i, x := range tr {
+			if x.kind == 'o' {
+				starts = append(starts, i)
+			}
+		}
+		rank := map[string]int{"old": -1}
+		for i, tag := range order {
+			rank[tag] = i
+		}
+		for j, cp := range ob.cps {
+			done := -1 // last save that is complete at this crash point
+			for k := range starts {
+				end := len(tr)
+				if k+1 < len(starts) {
+					end = starts[k+1]
+				}
+				if cp.ops >= end {
+					done = k
+				}
+			}
+			for _, cls := range strings.Split(ob.pls[j], "+") {
+				if rk, ok := rank[cls]; ok && rk < done {
+					c.Fail("completed-save-lost-on-power-loss", fmt.Sprintf("%s @%d+%d", full, cp.ops, cp.part),
+						fmt.Sprintf("save #%d (%s) had returned, yet a power loss at this point can leave %q holding %s (directory change not fsynced)", done+1, order[done], sc.fileName, cls))
+				}
+			}
+		}
+	}
+	return nil
+}
+
+// runReaders: rename atomicity as the kernel shows it to concurrent readers.  One goroutine saves a cycle of
+// sessions through the real FileStorage while others keep loading the file through their own FileStorage
+// (no shared lock): every load must be one of the complete sessions.
+func runReaders(c *hc.Ctx, r *hc.RNG, base string) error {
+	dir := filepath.Join(base, "readers")
+	if err := os.MkdirAll(dir, 0o700); err != nil {
+		return err
+	}
+	defer os.RemoveAll(dir)
+	path := filepath.Join(dir, "session.json")
+	var datas []*session.Data
+	for i := 0; i < 4; i++ {
+		datas = append(datas, genSession(r, r.Range(0, 40)))
+	}
+	w := &session.Loader{Storage: &session.FileStorage{Path: path}}
+	if err := w.Save(context.Background(), datas[0]); err != nil {
+		return err
+	}
+	saves := c.N(300, 3000)
+	var stop atomic.Bool
+	var wg sync.WaitGroup
+	type bad struct{ detail string }
+	bads := make(chan bad, 16)
+	var loads atomic.Int64
+	for g := 0; g < 3; g++ {
+		wg.Add(1)
+		go func() {
+			defer wg.Done()
+			rd := &session.Loader{Storage: &session.FileStorage{Path: path}}
+			for !stop.Load() {
+				got, err := rd.Load(context.Background())
+				loads.Add(1)
+				ok := false
+				if err == nil {
+					for _, d := range datas {
+						if reflect.DeepEqual(got, d) {
+							ok = true
+						}
+					}
+				}
+				if !ok {
+					select {
+					case bads <- bad{fmt.Sprintf("a concurrent Loader.Load returned err=%v (not one of the saved sessions)", err)}:
+					default:
+					}
+				}
+			}
+		}()
+	}
+	var saveErr error
+	for i := 1; i <= saves && saveErr == nil; i++ {
+		saveErr = w.Save(context.Background(), datas[i%len(datas)])
+	}
+	stop.Store(true)
+	wg.Wait()
+	close(bads)
+	c.Count(fmt.Sprintf("readers.saves=%d", saves))
+	c.Note("concurrent readers: %d loads during %d saves", loads.Load(), saves)
+	c.Eval(fmt.Sprintf("readers %d saves", saves), true)
+	if saveErr != nil {
+		return fmt.Errorf("save in the reader test failed: %w", saveErr)
+	}
+	for b := range bads {
+		c.Fail("concurrent-reader-saw-partial-session", fmt.Sprintf("readers: %d saves of 4 sessions with 3 concurrent loaders", saves), b.detail)
+	}
+	return nil
+}
+
+// runUnlockedSavers: savers that do NOT share a lock (each its own FileStorage on the same path, as two
+// processes would).  Not traced (strace cannot order truly concurrent calls); the outcome is checked: every
+// StoreSession succeeds, afterwards the file is exactly one of the sessions just saved, and no temporary
+// file is left.  (Covered in the model by publication_discipline_safe: any interleaving of disciplined
+// writers with distinct temporary names is disciplined.)
+func runUnlockedSavers(c *hc.Ctx, r *hc.RNG, base string) error {
+	dir := filepath.Join(base, "unlocked")
+	if err := os.MkdirAll(dir, 0o700); err != nil {
+		return err
+	}
+	defer os.RemoveAll(dir)
+	path := filepath.Join(dir, "session.json")
+	rounds := c.N(60, 600)
+	for i := 0; i < rounds; i++ {
+		k := hc.Pick(r, 2, 3, 4)
+		datas := make([]*session.Data, k)
+		errs := make([]error, k)
+		for j := range datas {
+			datas[j] = genSession(r, r.Range(0, 30))
+		}
+		var wg sync.WaitGroup
+		start := make(chan struct{})
+		for j := 0; j < k; j++ {
+			wg.Add(1)
+			go func(j int) {
+				defer wg.Done()
+				<-start
+				errs[j] = (&session.Loader{Storage: &session.FileStorage{Path: path}}).Save(context.Background(), datas[j])
+			}(j)
+		}
+		close(start)
+		wg.Wait()
+		in := fmt.Sprintf("unlocked savers: round %d, %d savers on %s", i, k, filepath.Base(path))
+		c.Eval(in, true)
+		for j, err := range errs {
+			if err != nil {
+				c.Fail("unlocked-saver-failed", in, fmt.Sprintf("saver %d: %v", j, err))
+			}
+		}
+		got, err := (&session.Loader{Storage: &session.FileStorage{Path: path}}).Load(context.Background())
+		ok := false
+		for _, d := range datas {
+			if err == nil && reflect.DeepEqual(got, d) {
+				ok = true
+			}
+		}
+		if !ok {
+			c.Fail("unlocked-savers-corrupted-session", in, fmt.Sprintf("after the concurrent saves Loader.Load gives err=%v and none of the saved sessions", err))
+		}
+		es, _ := os.ReadDir(dir)
+		for _, e := range es {
+			if e.Name() != "session.json" {
+				c.Fail("unlocked-savers-left-temp-file", in, "the directory still holds "+e.Name())
+				os.Remove(filepath.Join(dir, e.Name()))
+			}
+		}
+	}
+	c.Count(fmt.Sprintf("unlocked.rounds=%d", rounds))
 	return nil
 }
